@@ -98,6 +98,12 @@ def lem_composition(ex, state, q, a, b, j):
 
 
 def build(reg):
+    build_py(reg)
+    build_c(reg)
+    build_lemmas(reg)
+
+
+def build_py(reg):
     reg.native_spec("utf8_run", sym_utf8_run)
     reg.lemma_fn("utf8_run_prefix", lem_prefix)
     reg.lemma_fn("utf8_run_composition", lem_composition)
@@ -140,8 +146,6 @@ def build(reg):
             "self._state == old(self._state) and self._index == old(self._index)",
         ]}},
         **common)
-    build_c(reg)
-    build_lemmas(reg)
 
 
 CMOD = "cnvx._utf8validator"
